@@ -330,6 +330,28 @@ func (in *Inst) Stop() {
 	vsched.Thawed[in.Name] = false
 }
 
+// StopProcess models a process that is told to stop and then exits: the real
+// shutdown path runs, and connections the instance itself dialed (a follower's
+// replication link, which the shutdown path does not close and which has no
+// read deadline) are closed the way the operating system closes a dead
+// process's sockets.
+func (in *Inst) StopProcess() {
+	vsched.Thawed[in.Name] = true
+	vsched.Send(in.shutdown, true)
+	if !vsched.WaitUntilOr(func() bool { return in.exited }, int64(2*stdtime.Second)) {
+		for _, c := range vnet.All {
+			if c.Owner == in.Name && !c.Closed() {
+				c.Kill()
+			}
+		}
+		if !vsched.WaitUntilOr(func() bool { return in.exited }, int64(600*stdtime.Second)) {
+			panic("server " + in.Name + " did not stop: " + vsched.Dump())
+		}
+	}
+	vsched.Quiesce()
+	vsched.Thawed[in.Name] = false
+}
+
 // rwm returns the vsync.RWMutex behind Server.mu (nil for the spinlock).
 func (in *Inst) lockState() (exclusive bool, writer int, readers int) {
 	switch l := in.S.mu.(type) {
